@@ -71,6 +71,7 @@ TxnAtomic(r) ==
             THEN Fail("caller-raised:" \o r.callers[CHOOSE k \in 1..Len(r.callers) : r.callers[k].exc \notin {"none", "CancelledError"}].exc, 0)
        ELSE IF bad # {} THEN LET k == CHOOSE x \in bad : TRUE IN Fail(CallerAtomic(r.wire, r.callers[k]) \o ":" \o r.callers[k].name, k)
        ELSE IF unknown # {} THEN Fail("frame-from-nobody", CHOOSE k \in unknown : TRUE)
+       ELSE IF \E k \in 1..Len(r.callers) : r.callers[k].aux_ok # 1 THEN Fail("sleep-or-progress-item-mishandled", 0)
        ELSE IF r.lock_free # 1 THEN Fail("transaction-lock-still-held", 0)
        ELSE IF \E k \in 1..Len(r.callers) : r.callers[k].mode = "sequence" /\ r.callers[k].closed # 1
             THEN Fail("sequence-not-closed", 0)
